@@ -153,6 +153,26 @@ def c04_3(ctx):
     _refcheck(ctx, BSC, "BitcoinSolutionChecker._make_sighash_f.sig_for_hash_type_f", "bsc_sig_for_hash_type_f", "find-and-delete")
     _refcheck(ctx, BSC, "BitcoinSolutionChecker._delete_signature", "bsc_delete_signature", "opcode-aligned-delete:_delete_signature")
     _refcheck(ctx, BSC, "BitcoinSolutionChecker.delete_subscript", "bsc_delete_subscript", "opcode-aligned-delete:delete_subscript")
+    # FindAndDelete removes EVERY occurrence: the walk over the script's instructions runs to the end of the script (no way out of
+    # the loop that a match selects)
+    for nm in ("BitcoinSolutionChecker._delete_signature", "BitcoinSolutionChecker.delete_subscript"):
+        g = ctx.func(BSC, nm)
+        node = sym.expanded(ctx, g)
+        loops = [n for n in ast.walk(node) if isinstance(n, (ast.For, ast.While)) and "get_opcode" in norm(n.iter if isinstance(n, ast.For) else n.test) + " ".join(norm(x) for st in n.body for x in ast.walk(st) if isinstance(x, ast.Call))]
+        if not loops:
+            ctx.undecided("delete-every-occurrence:%s" % nm.split(".")[-1], ctx.where(g), "%s: no loop over the script's instructions found" % nm)
+        for lp in loops:
+            inner = {id(y) for x in ast.walk(lp) if isinstance(x, (ast.For, ast.While)) and x is not lp for y in ast.walk(x)}
+            outs = [x for st in lp.body for x in ast.walk(st) if isinstance(x, (ast.Break, ast.Return)) and id(x) not in inner]
+            while_end = isinstance(lp, ast.While)      # `while pc < len(script)` ends by its own test: breaks that restate it are read below
+            bad_ = []
+            for x in outs:
+                tst = ru.enclosing_test(lp, x)
+                if tst is not None and any(isinstance(c, ast.Compare) and any(isinstance(o, (ast.Eq, ast.NotEq)) for o in c.ops) and not any(isinstance(z, ast.Constant) for z in [c.left] + list(c.comparators)) for c in ast.walk(tst)):
+                    bad_.append(x)
+            ctx.check(not bad_, "delete-every-occurrence:%s" % nm.split(".")[-1], ctx.where(g, bad_[0]) if bad_ else ctx.where(g, lp),
+                      "%s leaves its walk over the script when an instruction matches: only the first occurrence is removed, so the script code that is hashed still contains later copies" % nm,
+                      sample={"function": nm, "ways_out_of_the_walk_on_a_match": 0})
 
 
 # ------------------------------------------------------------------ C04.4
